@@ -914,15 +914,41 @@ def symbolic(*modules, proxy=None, extra=None):
             if extra:
                 new.update(extra.get(mod.__name__, {}))
             for name, val in new.items():
-                saved.append((g, name, g.get(name, _MISSING)))
+                rec = (g, name, val, g.get(name, _MISSING))
+                saved.append(rec)
+                _ACTIVE.append(rec)
                 g[name] = val
         yield proxy
     finally:
-        for g, name, old in reversed(saved):
+        for rec in reversed(saved):
+            g, name, val, old = rec
             if old is _MISSING:
                 g.pop(name, None)
             else:
                 g[name] = old
+            try:
+                _ACTIVE.remove(rec)
+            except ValueError:
+                pass
 
 
 _MISSING = object()
+_ACTIVE = []     # stack of (globals dict, name, symbolic value, original value) for active rebindings
+
+
+@contextlib.contextmanager
+def real_code():
+    """temporarily restore the original module globals (used while replaying on the real code)"""
+    snapshot = list(_ACTIVE)
+    for g, name, new, old in reversed(snapshot):
+        if old is _MISSING:
+            g.pop(name, None)
+        else:
+            g[name] = old
+    ex, St.explorer = St.explorer, None
+    try:
+        yield
+    finally:
+        St.explorer = ex
+        for g, name, new, old in snapshot:
+            g[name] = new
